@@ -24,11 +24,17 @@ K_EXT = ["IntrusiveArrayBuilder<$0,$1>::extend", "ArrayBuilder<$0,$1>::extend"]
 
 
 def results(a):
+    """Result constructions in a body: (Ok sites carrying a value - `Ok(())` of a helper is not a result of the conversion -, Err sites)."""
     ok, err = [], []
     for g in a.aggregates:
         k = g["kind"]
         if isinstance(k, tuple) and k[0] == "adt" and k[1] == "core::result::Result":
-            (ok if k[2] == 0 else err).append(g)
+            if k[2] == 0:
+                if g["ops"] and g["ops"][0] in (("A", "tuple", ()), ("A", "unit", ())):
+                    continue
+                ok.append(g)
+            else:
+                err.append(g)
     return ok, err
 
 
@@ -67,17 +73,21 @@ def check_try(ctx, cfg, key, boxed):
         lens = [c for c in lens if c.args[0][0] == "P" and c.args[0][1] == vec_base and ext and a.dominates(ext[0].bb, c.bb)]
         def is_full(facts):
             return any(a.prove(facts, "Eq", c.ret[1], N) for c in lens)
-    # C07.O
-    if len(oks) != 1 or len(polls) != 1:
-        ctx.ob("C07.O", key, REFUTED if oks else MISSING, "expected exactly one Ok(..) construction and one extra poll; found %d / %d" % (len(oks), len(polls)), at=b["at"], cfg=cfg)
+    # C07.O: every Ok(array) is built under `destination full` and `an extra poll returned None`
+    if not oks or not polls:
+        ctx.ob("C07.O", key, REFUTED if oks else MISSING, "expected an Ok(..) construction guarded by one extra poll of the source; found %d Ok / %d polls" % (len(oks), len(polls)), at=b["at"], cfg=cfg)
         return
-    g, poll = oks[0], polls[0]
-    none = ("b", ("is_some", poll.ret), False) in g["facts"]
-    full = is_full(g["facts"])
-    ctx.ob("C07.O", key, full and none, "Ok(..) constructed under %s; required: destination full (== N): %s and extra poll returned None: %s" % (fstr(g["facts"]), full, none), at=b["at"], cfg=cfg)
-    ctx.sample({"rule": "C07.O", "fn": key, "cfg": cfg, "facts_at_Ok": fstr(g["facts"])})
-    # C07.P: the only poll outside the fill happens under full
-    ctx.ob("C07.P", key, is_full(poll.facts), "the extra iter.next() is reached under %s; required: only when the destination is full" % fstr(poll.facts), at=poll.at, cfg=cfg)
+    bad = []
+    for g in oks:
+        none = any((("b", ("is_some", poll.ret), False) in g["facts"]) or (("variant", poll.ret, 0) in g["facts"]) for poll in polls)
+        full = is_full(g["facts"])
+        if not (full and none):
+            bad.append("Ok(..) under %s: destination full: %s, extra poll returned None: %s" % (fstr(g["facts"]), full, none))
+    ctx.ob("C07.O", key, not bad, "; ".join(bad) if bad else "%d Ok(..) construction(s), each under `destination full (== N)` and `the extra poll returned None`" % len(oks), at=b["at"], cfg=cfg)
+    ctx.sample({"rule": "C07.O", "fn": key, "cfg": cfg, "facts_at_Ok": [fstr(g["facts"]) for g in oks]})
+    # C07.P: a poll outside the fill happens only under full
+    badp = [fstr(p_.facts) for p_ in polls if not is_full(p_.facts)]
+    ctx.ob("C07.P", key, not badp, "each extra iter.next() outside the fill is reached only when the destination is full: %s" % (not badp if not badp else badp), at=polls[0].at, cfg=cfg)
     # C07.H - judged per path (helpers inlined, loop-free part tree-shaped): an Err built before any fill call must be justified by the hint
     at = ctx.analysis_inl(cfg, key, split=True)
     ht = hint_terms(at)
@@ -96,14 +106,40 @@ def check_try(ctx, cfg, key, boxed):
             if not (gt or lt):
                 bad.append(fstr(e["facts"]))
         ctx.ob("C07.H", "%s#early_err" % key, not bad, "%d early Err exit(s) (before any element is taken); each requires lower > N or (upper = Some(u), u < N); unjustified: %s" % (len(early), bad or "none"), at=b["at"], cfg=cfg)
-    # C07.Z (call-site part)
+    # C07.Z (call-site part): the fill, judged on the body with the builder's extend() expanded in place - so `builder.extend(&mut iter)` and a
+    # hand-written `destination.zip(&mut iter).for_each(..)` are the same code to this rule
     if not boxed:
-        ex = [c for c in a.calls if c.key == "IntrusiveArrayBuilder<$0,$1>::extend"]
-        ok = len(ex) == 1 and ex[0].args[1][0] == "P" and ex[0].args[1][1] == ("local", it_local)
+        az = ctx.analysis_inl(cfg, key, force=tuple(K_EXT), tag="fill")
         owners = owner_adts(ctx.db(cfg))
-        recv = ex[0].args[0] if ex else None
-        recv_ok = recv is not None and recv[0] == "P" and recv[1][0] == "local" and local_adt(a, recv[1][1]) in owners
-        ctx.ob("C07.Z", key + "#fill", ok and recv_ok, "fill = builder.extend(&mut iter): source passed by &mut: %s; receiver is a tracked builder local: %s" % (ok, recv_ok), at=b["at"], cfg=cfg)
+        into_z = [c for c in az.calls if c.fn == "core::iter::IntoIterator::into_iter" and c.args[0] == ("V", "arg", 1)]
+        itl = into_z[0].term["dest"]["l"] if into_z else None
+        fes = [c for c in az.calls if c.fn == "core::iter::Iterator::for_each" and isinstance(c.args[0], tuple) and len(c.args[0]) == 5 and c.args[0][:3] == ("V", "iter", "zip")]
+        ok = len(fes) == 1
+        det = "expected one destination.zip(&mut source).for_each(..) (directly or through builder.extend); found %d" % len(fes)
+        if ok:
+            fe = fes[0]
+            dest, src = fe.args[0][3], fe.args[0][4]
+            bl = [i for i in range(len(az.locals)) if local_adt(az, i) in owners]
+            d_ok = False
+            for i in bl:
+                o = owners[local_adt(az, i)]
+                whole = fe.mem.get((("local", i), ()))
+                arrp = whole[2][o["array"]] if whole is not None and whole[0] == "A" else az.read_cell(State(fe.mem, fe.facts), ("local", i), (o["array"],), None)
+                if arrp is not None and arrp[0] == "P" and isinstance(dest, tuple) and dest[:3] == ("V", "iter", "slice") and dest[4] is True and dest[3][1] == arrp[1] and not dest[3][2].t and dest[3][3] == N:
+                    d_ok = True
+            s_ok = src[0] == "P" and src[1] == ("local", itl) and not src[2].t
+            cv = fe.args[1]
+            c_ok = False
+            if cv[0] == "A" and isinstance(cv[1], tuple) and cv[1][0] == "closure":
+                cb = ctx.db(cfg).by_path.get(cv[1][1])
+                ca = ctx.analysis(cfg, cb["key"])
+                role, cok, cdet, info = check_closure_protocol(ca, Classifier(ctx.db(cfg)))
+                ws = [c for c in ca.calls if c.fn in ("core::mem::MaybeUninit::<T>::write", "core::ptr::write")]
+                pair = len(ws) == 1 and ws[0].args[1] == ("V", "proj", ("proj", ("V", "arg", 2), (1,))) and ws[0].args[0][0] == "P" and ws[0].args[0][1] == ("obj", ("proj", ("proj", ("V", "arg", 2), (0,))))
+                c_ok = cok and role == "builder" and pair
+            ok = d_ok and s_ok and c_ok
+            det = "fill = zip(iter_mut over the tracked builder's whole array, &mut source).for_each(cl): destination is Zip's receiver: %s; source passed by &mut: %s; closure stores item -> slot and counts it: %s" % (d_ok, s_ok, c_ok)
+        ctx.ob("C07.Z", key + "#fill", ok, det, at=b["at"], cfg=cfg)
     else:
         ex = [c for c in a.calls if c.fn == "core::iter::Extend::extend"]
         ok = len(ex) == 1
@@ -175,6 +211,19 @@ def check_from_iter(ctx, cfg, key, try_key):
     N = a.tenv.length({"k": "param", "n": b["generics"][1]["n"]})
     tr = [c for c in a.calls if c.key == try_key]
     fail = [c for c in a.calls if c.key == "from_iter_length_fail"]
+    uoe = [c for c in a.calls if c.fn == "core::result::Result::<T, E>::unwrap_or_else"]
+    if len(tr) == 1 and not fail and len(uoe) == 1:
+        # from_iter = try_*(iter).unwrap_or_else(|_| from_iter_length_fail(N))
+        cv = uoe[0].args[1]
+        cb = ctx.db(cfg).by_path.get(cv[1][1]) if (cv[0] == "A" and isinstance(cv[1], tuple) and cv[1][0] == "closure") else None
+        c_ok = False
+        if cb is not None:
+            ca = ctx.analysis(cfg, cb["key"])
+            fc = [c for c in ca.calls if c.key == "from_iter_length_fail"]
+            c_ok = len(fc) == 1 and fc[0].args[0] == ("I", ca.tenv.length({"k": "param", "n": b["generics"][1]["n"]})) and len(payload_calls(ca)) == 1 and not ca.returns
+        okv = tr[0].args[0] == ("V", "arg", 1) and uoe[0].args[0] == tr[0].ret and all(r["val"] == uoe[0].ret for r in a.returns) and len(payload_calls(a)) == 2
+        ctx.ob(rule, key, okv and c_ok, "from_iter = %s(iter).unwrap_or_else(|_| from_iter_length_fail(N)): %s; the closure only diverges through from_iter_length_fail(N): %s" % (try_key.split("::")[-1], okv, c_ok), at=b["at"], cfg=cfg)
+        return
     ok = len(tr) == 1 and len(fail) == 1 and tr[0].args[0] == ("V", "arg", 1) and fail[0].args[0] == ("I", N)
     errv = any(f[0] == "variant" and f[1] == tr[0].ret and f[2] == 1 for f in fail[0].facts) if ok else False
     okret = ok and all(r["val"] == ("V", "proj", ("proj", tr[0].ret, (("v", 0), 0))) or r["val"][0] == "V" for r in a.returns)
